@@ -89,6 +89,9 @@ def random_items(ctx, n, pools=False):
         pool = -1
         if pools and rng.random() < 0.5:
             pool = rng.choice([0, 1, 3])
+        if t % 23 == 11:
+            cfg = dict(cfg, prefix=(1 << 32) + rng.choice([12345, 1, 4096]) if t % 46 == 11 else (1 << 31) + 77, sparse=True)      # table starts beyond 4 GiB / 2 GiB in a sparse file
+            klass = "hugeprefix"
         items.append({"name": "rnd%d" % t, "cfg": cfg, "adds": adds, "origin": "random", "klass": klass, "poolsize": pool,
                       "verify": rng.randint(0, 1), "madv": rng.randint(0, 1)})
     return items
@@ -163,8 +166,24 @@ def dump_variants(rng, it, accepted):
         vb = P.xs_bytes(int(m.group(1)), vl)
         out.append(dict(vp=vb[:max(1, vl // 2)]))
         out.append(dict(vp=b"\x00"))
+    # combinations of -k and -v: a value shorter than the key prefix, and a -v argument that extends a stored value
+    short = [(kk, vv) for kk, vv in accepted if len(kk) >= 2 and 0 < int(re.match(r"G(\d+)x(\d+)", vv).group(2)) < len(kk) and int(re.match(r"G(\d+)x(\d+)", vv).group(2)) <= 1024]
+    combos = []
+    if short:
+        kk, vv = rng.choice(short)
+        mm = re.match(r"G(\d+)x(\d+)", vv)
+        vb = P.xs_bytes(int(mm.group(1)), int(mm.group(2)))
+        combos.append(dict(kp=kk, vp=vb[:1]))
+    smallv = [(kk, vv) for kk, vv in accepted if int(re.match(r"G(\d+)x(\d+)", vv).group(2)) <= 64]
+    if smallv and all(int(re.match(r"G(\d+)x(\d+)", v).group(2)) <= 1024 for _, v in accepted):
+        kk, vv = rng.choice(smallv)
+        mm = re.match(r"G(\d+)x(\d+)", vv)
+        vb = P.xs_bytes(int(mm.group(1)), int(mm.group(2)))
+        combos.append(dict(vp=vb + bytes([rng.choice([0, 1, 2, 255])])))
+        if kk:
+            combos.append(dict(kp=kk[:1], vp=vb[:max(1, len(vb) // 2)] if vb else b"\x00"))
     rng.shuffle(out)
-    return out[:3]
+    return out[:3] + combos
 
 
 def run_items(ctx, b, tools, items, judge, batch=40, with_tools=True, label="w"):
@@ -185,6 +204,13 @@ def run_items(ctx, b, tools, items, judge, batch=40, with_tools=True, label="w")
         allrecs = []
         per_item = []
         for it, ex in zip(chunk, execs):
+            rel = it["cfg"]["prefix"] if it["cfg"]["prefix"] >= P.BIG else 0
+            if rel:
+                for e in ex:
+                    if e["e"] == "WInit":
+                        e["prefix"] = e["prefix"] - rel
+                    if e["e"] == "RMeta":
+                        e["index_block_offset"] = e["index_block_offset"] - rel
             out = [ex[0], {"e": "Judge", "props": judge}]
             ext = [e for e in ex if e["e"] == "Exit"]
             if ext and (ext[0]["code"] != 0 or ext[0]["sig"] != 0):
@@ -199,7 +225,7 @@ def run_items(ctx, b, tools, items, judge, batch=40, with_tools=True, label="w")
                     accepted.append(e)
                 if e["e"] == "WClose" and e["w"] == 0:
                     closed = True
-                    out.append(P.file_struct(it["path"], it["cfg"]["prefix"]))
+                    out.append(P.file_struct(it["path"], it["cfg"]["prefix"], it["cfg"].get("sparse", False)))
             if closed and with_tools and not it.get("pre"):
                 acc = [(bytes(e["k"]), None) for e in accepted]
                 accspec = []
@@ -209,7 +235,10 @@ def run_items(ctx, b, tools, items, judge, batch=40, with_tools=True, label="w")
                         # the ai-th accepted add corresponds to the first matching script add in order
                         accspec.append((k, v))
                         ai += 1
-                out.append(P.run_info(tools, it["path"]))
+                info = P.run_info(tools, it["path"])
+                if rel and "index_block_offset" in info:
+                    info["index_block_offset"] -= rel
+                out.append(info)
                 for opt in dump_variants(ctx.rng, it, accspec if len(accspec) == len(accepted) else []):
                     out.append(P.run_dump(tools, it["path"], **opt))
             per_item.append(out)
